@@ -17,7 +17,9 @@ type wres struct {
 
 // H_C12_WriteClose: writers racing a closing event (local close, peer close / EOF, failing transport write).
 func c12(writers, perWriter int) {
-	e := newWsEnv(true)
+	// the data processor either closes the data connection when told about an error (as ShipConnection normally does)
+	// or does not (e.g. its own close is already in progress): the websocket layer must release writers either way
+	e := newWsEnv(zzvrt.Bool("processor.closes"))
 	w := e.w
 	e.failWrite = zzvrt.Int("env.failWrite", 0, 3)
 	results := make([]*wres, 0, writers*perWriter)
@@ -81,3 +83,6 @@ func c12(writers, perWriter int) {
 func H_C12_W1x2() { c12(1, 2) }
 func H_C12_W2x1() { c12(2, 1) }
 func H_C12_W2x2() { c12(2, 2) }
+
+func H_C12_W1x3() { c12(1, 3) }
+func H_C12_W3x1() { c12(3, 1) }
